@@ -12,3 +12,6 @@ func At(string, ...string) {}
 
 // Name is a no-op without the "verif" build tag.
 func Name(context.Context) string { return "" }
+
+// Ptr is a no-op without the "verif" build tag.
+func Ptr(any) string { return "" }
